@@ -266,7 +266,17 @@ func runCase(d *Def, c *Case) (res Res) {
 	res.Err = ClassifyErr(err)
 	res.RestNil = rest == nil
 	res.Rest = ToksOf(rest)
-	fmt.Fprintf(raw, "rest=%#v err=%v|", rest, err)
+	// the caller reuses its argument buffer: what Parse returned must not change with it
+	for i := range args {
+		args[i] = "overwritten by the caller"
+	}
+	for i, t := range res.Rest {
+		if i < len(rest) && FromAtoms(t) != rest[i] {
+			res.Aliased = true
+		}
+	}
+	rest = StringsOf(res.Rest)
+	fmt.Fprintf(raw, "rest=%#v err=%v aliased=%v|", rest, err, res.Aliased)
 	b.observeOpts(&res, raw)
 	parseW := w.String()
 	warn, other := splitWriter(parseW)
